@@ -24,8 +24,8 @@ FIELDS = ["id", "ty", "event", "haspts", "ptsv", "segnum", "segexp", "hassub", "
 
 
 def dline(d):
-    return "[%d %d %d %d %d %d %d %d %d %d %s]" % (d["id"], d["ty"], d["event"], d["haspts"], d["ptsv"], d["segnum"], d["segexp"],
-                                                   d["hassub"], d["subnum"], d["subexp"], "[%d]" % d["vss"] if d.get("vss") is not None else "[]")
+    return "[ %d %d %d %d %d %d %d %d %d %d %s ]" % (d["id"], d["ty"], d["event"], d["haspts"], d["ptsv"], d["segnum"], d["segexp"],
+                                                     d["hassub"], d["subnum"], d["subexp"], "[ %d ]" % d["vss"] if d.get("vss") is not None else "[ ]")
 
 
 def row(tin, e1, e2, p1, p2, s1, s2, hpd, hpo, kind):
@@ -76,7 +76,7 @@ def gen(rng, tier):
             out.append(row(tin, e1, e2, p1, p2, s1, s2, 1, 1, "row-random-values"))
     for tin in sorted(RULE_TYPES) if tier == "quick" else range(256):
         out.append(row(tin, 7, 0x80000007, 0, 1 << 32, 0, 128, 0, 1, "row-nopts-incoming"))
-        out.append(row(tin, 7, 0x107, 90000, 90001, 254, 0, 1, 0, "row-nopts-open"))
+        out.append(row(tin, 7, 0x107, 90001, 90000, 254, 0, 1, 0, "row-nopts-open"))
         out.append(row(tin, 7, 8, 0, 2, 1, 3, 0, 0, "row-nopts-both"))
     # 2. classification
     out.append(Case("seg.inout", kind="inout", theorem="C19_in_out_lists"))
@@ -99,7 +99,19 @@ def gen(rng, tier):
 
 
 def shrink(c):
-    return []
+    """seg.eqm: drop chunks of the family (delta debugging); the rows are already minimal"""
+    if not c.line.startswith("seg.eqm "):
+        return
+    import re
+    ds = re.findall(r"\[ [^\[\]]*\[ [^\[\]]*\] \]", c.line)
+    n = len(ds)
+    size = n // 2
+    while size >= 1:
+        for start in range(0, n, size):
+            rest = ds[:start] + ds[start + size:]
+            if len(rest) >= 1:
+                yield Case("seg.eqm " + " ".join(rest), kind=c.kind, theorem=c.theorem)
+        size //= 2
 
 
 def search(c, rng):
@@ -109,6 +121,8 @@ def search(c, rng):
 
 def oracle(case, real, model):
     """projected equality, with a readable message naming the first differing cell"""
+    if model in ("[8]", "[9]") or real in ("[8]", "[9]"):
+        return "an executor rejected the request line (generator defect, not a verdict): real %s model %s" % (real, model)
     if real == model:
         return ""
     try:
